@@ -225,6 +225,76 @@ def eval_else(case) -> Verdict:
     return v
 
 
+# ranges whose bounds change between evaluations of one and the same expression: inside an outer loop, and from one render
+# of the parsed template to the next
+DEP_RANGES = ["(1..i)", "(i..3)", "(i..n)", "(m..i)", "(i..i)", "(0..i)", "(i..2)", "(n..i)", "(1..n)", "(m..n)"]
+DEP_VARS = {"i", "n", "m"}
+
+
+def _range_items(expr: str, env_: dict) -> list:
+    a, b = expr[1:-1].split("..")
+    lo = env_[a] if a in env_ else int(a)
+    hi = env_[b] if b in env_ else int(b)
+    return list(range(lo, hi + 1))
+
+
+def eval_dependent(case) -> Verdict:
+    v = Verdict()
+    env = envs.make_env(CFG)
+    expr, inner, extra = case["range"], case["inner"], case.get("args", "")
+    if inner == "for":
+        body = "{% for j in " + expr + extra + " %}{{ j }}:{{ forloop.length }},{% else %}e{% endfor %}"
+    elif inner == "tablerow":
+        body = "{% tablerow j in " + expr + extra + " %}{{ j }}:{{ tablerowloop.length }},{% endtablerow %}"
+    else:  # the range as a value: assigned, then iterated and measured
+        body = "{% assign r = " + expr + " %}{% for j in r" + extra + " %}{{ j }}:{{ forloop.length }},{% else %}e{% endfor %}"
+    src = "{% for i in (1..k) %}" + body + "|{% endfor %}"
+    p = oc.outcome_of(lambda: env.from_string(src))
+    if p[0] != "ok":
+        v.fail(f"dependent:parse:{p[1]}", f"{src!r}: {oc.short(p)!r:.150}")
+        return v
+
+    def want(data) -> str:
+        out = ""
+        for i in range(1, data["k"] + 1):
+            items = _range_items(expr, dict(data, i=i))
+            if "reversed" in extra:
+                items = items[::-1]
+            if "limit: 2" in extra:
+                items = items[:2]
+            if inner == "tablerow":
+                cells = "".join(f"{j}:{len(items)}," for j in items)
+                out += ("X" if items else "E") + cells + "|"
+            else:
+                out += ("".join(f"{j}:{len(items)}," for j in items) or "e") + "|"
+        return out
+
+    def norm(text: str) -> str:
+        if inner != "tablerow":
+            return text
+        import re
+
+        rows = []
+        for part in text.split("|")[:-1]:
+            cells = "".join(re.findall(r"<td[^>]*>(.*?)</td>", part, flags=re.S))
+            rows.append(("X" if cells else "E") + cells)
+        return "|".join(rows) + "|"
+
+    # the same parsed template, rendered one data set after the other
+    for data in case["datas"]:
+        o = oc.render(case, lambda: p[1], **data)  # noqa: B023
+        if o[0] != "ok":
+            v.fail(f"dependent:raises:{o[1]}", f"{src!r} {data}: {oc.short(o)!r:.150}")
+            break
+        if norm(o[1]) != want(data):
+            which = "first-render" if data is case["datas"][0] else "later-render"
+            v.fail(f"dependent:{inner}:{which}", f"{src!r} with {data} (after {case['datas'][: case['datas'].index(data)]}):\n   expected {want(data)!r}\n   observed {norm(o[1])!r}")
+            break
+    v.nontrivial = bool(DEP_VARS & set(expr[1:-1].split("..")))
+    v.labels.append("dependent-range")
+    return v
+
+
 def eval_aborted(case) -> Verdict:
     """A loop that is left through an error (tolerated in lax mode) must not stay on the loop stack."""
     v = Verdict()
@@ -259,6 +329,8 @@ def evaluate(case) -> Verdict:
         return eval_else(case)
     if case["kind"] == "aborted":
         return eval_aborted(case)
+    if case["kind"] == "dependent":
+        return eval_dependent(case)
     v = Verdict()
     env = envs.make_env(CFG)
     kind = case["kind"]
@@ -385,6 +457,12 @@ def special_cases():
             yield {"kind": "else", "wrap": wrap, "body": body, "n": 3, "args": [["limit", 0]]}
             yield {"kind": "else", "wrap": wrap, "body": body, "n": 3, "args": [["offset", 5]]}
             yield {"kind": "else", "wrap": wrap, "body": body, "n": 2, "args": [["offset", 1], ["limit", 5]]}
+    for rng in DEP_RANGES:
+        for inner in ("for", "tablerow", "assigned"):
+            for args in ("", " reversed", " limit: 2"):
+                yield {"kind": "dependent", "range": rng, "inner": inner, "args": args,
+                       "datas": [{"k": 3, "n": 2, "m": 1}, {"k": 2, "n": 4, "m": 0}, {"k": 3, "n": 0, "m": 2}]}
+                yield {"kind": "dependent", "range": rng, "inner": inner, "args": args, "datas": [{"k": 1, "n": 5, "m": 5}, {"k": 4, "n": 1, "m": -1}]}
     for outer in ("for", "tablerow"):
         for bad in ("filter", "limit", "break-ok"):
             yield {"kind": "aborted", "outer": outer, "bad": bad}
